@@ -1,0 +1,61 @@
+//go:build verif
+
+package alignment
+
+// Contracts for the deductive verifier in /verif (govc). Only compiled with -tags verif.
+
+// A column-stored alignment is well formed when it has at least one column (Rows() indexes column 0),
+// every column has the same number of rows, and no two columns share storage.
+//@ spec wf(s *Seq) bool = s != nil && len(s.Seq) > 0
+//@       && (forall c int :: 0 <= c && c < len(s.Seq) ==> len(s.Seq[c]) == len(s.Seq[0]))
+//@       && (forall c int, d int :: 0 <= c && c < d && d < len(s.Seq) ==> arr(s.Seq[c]) != arr(s.Seq[d]))
+
+// AppendColumns: the new columns hold exactly the supplied letters, in fresh storage; existing columns are untouched.
+//@ func (*Seq).AppendColumns
+//@   property C07
+//@   requires wf(s)
+//@   ensures [rejected] result != nil ==> s.Seq == old(s.Seq)
+//@   ensures [count]    result == nil ==> len(s.Seq) == old(len(s.Seq)) + len(a)
+//@   ensures [old]      result == nil ==> forall c int :: 0 <= c && c < old(len(s.Seq)) ==> s.Seq[c] == old(s.Seq[c])
+//@   ensures [old-cells] forall c int, r int :: 0 <= c && c < old(len(s.Seq)) && 0 <= r && r < len(old(s.Seq[c])) ==> old(s.Seq[c])[r] == old(s.Seq[c][r])
+//@   ensures [new]      result == nil ==> forall c int, r int :: 0 <= c && c < len(a) && 0 <= r && r < len(a[c]) ==> s.Seq[old(len(s.Seq)) + c][r] == a[c][r].L
+//@   ensures [fresh]    result == nil ==> forall c int :: old(len(s.Seq)) <= c && c < len(s.Seq) ==> fresh(s.Seq[c]) && len(s.Seq[c]) == len(s.Seq[0])
+//@   ensures [input]    forall c int, r int :: 0 <= c && c < len(a) && 0 <= r && r < len(a[c]) ==> a[c][r] == old(a[c][r])
+//@   loop 1 invariant 0 <= idx && idx <= len(a) && forall k int :: 0 <= k && k < idx ==> len(a[k]) == len(s.Seq[0])
+//@   loop 2 invariant 0 <= idx && idx <= len(a) && wfPrefix(s, old(len(s.Seq))) && len(s.Seq) == old(len(s.Seq)) + idx && cap(s.Seq) >= old(len(s.Seq)) + len(a)
+//@   loop 2 invariant forall c int :: 0 <= c && c < old(len(s.Seq)) ==> s.Seq[c] == old(s.Seq[c])
+//@   loop 2 invariant forall c int, r int :: 0 <= c && c < old(len(s.Seq)) && 0 <= r && r < len(old(s.Seq[c])) ==> old(s.Seq[c])[r] == old(s.Seq[c][r])
+//@   loop 2 invariant forall c int, r int :: 0 <= c && c < idx && 0 <= r && r < len(a[c]) ==> s.Seq[old(len(s.Seq)) + c][r] == a[c][r].L
+//@   loop 2 invariant forall c int :: old(len(s.Seq)) <= c && c < len(s.Seq) ==> fresh(s.Seq[c]) && allocated(s.Seq[c]) && len(s.Seq[c]) == len(old(s.Seq[0]))
+//@   loop 2 invariant forall c int :: 0 <= c && c < len(a) ==> a[c] == old(a[c])
+//@   loop 2 invariant forall c int, r int :: 0 <= c && c < len(a) && 0 <= r && r < len(a[c]) ==> a[c][r] == old(a[c][r])
+//@   loop 2 invariant forall k int :: 0 <= k && k < len(a) ==> len(a[k]) == len(old(s.Seq[0]))
+//@   loop 3 invariant 0 <= idx && idx <= len(r) && len(c) == len(r) && fresh(c)
+//@   loop 3 invariant forall k int :: 0 <= k && k < idx ==> c[k] == r[k].L
+//@ spec wfPrefix(s *Seq, n int) bool = s != nil && n > 0 && n <= len(s.Seq)
+
+// ---- quality alignments ----
+//@ spec qwf(s *QSeq) bool = s != nil && len(s.Seq) > 0
+//@       && (forall c int :: 0 <= c && c < len(s.Seq) ==> len(s.Seq[c]) == len(s.Seq[0]))
+//@       && (forall c int, d int :: 0 <= c && c < d && d < len(s.Seq) ==> arr(s.Seq[c]) != arr(s.Seq[d]))
+
+//@ func (*QSeq).AppendColumns
+//@   property C07
+//@   requires qwf(s) && disjoint(a, s.Seq)
+//@   ensures [rejected] result != nil ==> s.Seq == old(s.Seq)
+//@   ensures [count]    result == nil ==> len(s.Seq) == old(len(s.Seq)) + len(a)
+//@   ensures [old]      result == nil ==> forall c int :: 0 <= c && c < old(len(s.Seq)) ==> s.Seq[c] == old(s.Seq[c])
+//@   ensures [old-cells] forall c int, r int :: 0 <= c && c < old(len(s.Seq)) && 0 <= r && r < len(old(s.Seq[c])) ==> old(s.Seq[c])[r] == old(s.Seq[c][r])
+//@   ensures [new]      result == nil ==> forall c int, r int :: 0 <= c && c < len(a) && 0 <= r && r < len(a[c]) ==> s.Seq[old(len(s.Seq)) + c][r] == a[c][r]
+//@   ensures [fresh]    result == nil ==> forall c int :: old(len(s.Seq)) <= c && c < len(s.Seq) ==> fresh(s.Seq[c]) && len(s.Seq[c]) == len(s.Seq[0])
+//@   ensures [input]    forall c int, r int :: 0 <= c && c < len(a) && 0 <= r && r < len(a[c]) ==> a[c][r] == old(a[c][r])
+//@   loop 1 invariant 0 <= idx && idx <= len(a) && forall k int :: 0 <= k && k < idx ==> len(a[k]) == len(s.Seq[0])
+//@   loop 2 invariant disjoint(a, s.Seq)
+//@   loop 2 invariant 0 <= idx && idx <= len(a) && s != nil && len(s.Seq) == old(len(s.Seq)) + idx && cap(s.Seq) >= old(len(s.Seq)) + len(a) && old(len(s.Seq)) > 0
+//@   loop 2 invariant forall c int :: 0 <= c && c < old(len(s.Seq)) ==> s.Seq[c] == old(s.Seq[c])
+//@   loop 2 invariant forall c int, r int :: 0 <= c && c < old(len(s.Seq)) && 0 <= r && r < len(old(s.Seq[c])) ==> old(s.Seq[c])[r] == old(s.Seq[c][r])
+//@   loop 2 invariant forall c int, r int :: 0 <= c && c < idx && 0 <= r && r < len(a[c]) ==> s.Seq[old(len(s.Seq)) + c][r] == a[c][r]
+//@   loop 2 invariant forall c int :: old(len(s.Seq)) <= c && c < len(s.Seq) ==> fresh(s.Seq[c]) && allocated(s.Seq[c]) && len(s.Seq[c]) == len(old(s.Seq[0]))
+//@   loop 2 invariant forall c int :: 0 <= c && c < len(a) ==> a[c] == old(a[c])
+//@   loop 2 invariant forall c int, r int :: 0 <= c && c < len(a) && 0 <= r && r < len(a[c]) ==> a[c][r] == old(a[c][r])
+//@   loop 2 invariant forall k int :: 0 <= k && k < len(a) ==> len(a[k]) == len(old(s.Seq[0]))
